@@ -119,6 +119,55 @@ pub async fn run_c11(w: &mut World, m: &mut Mon, r: &mut R, t: &Twin, max_len: u
             accepted += 1;
         }
     }
+    // directed shapes outside the alphabet: the bracket's account is migrated inside the bracket, and
+    // the end instruction closes a sibling account of the same authority while naming the bracket's
+    // account only among its trailing accounts
+    {
+        let p = w.chain.payer.pubkey();
+        let fw = w.fee_wallet.pubkey();
+        let sibling = w.add_account(t.g0, t.user).await;
+        let sk = w.accts[sibling].key;
+        let borrow = |w: &World, amt: u64| {
+            ix::borrow(g, x, ak, w.banks[t.b0].key, ta_b, w.token_program_of_bank(t.b0), amt, {
+                let mut v = w.mint_prefix(t.b0);
+                v.extend(w.risk_metas(t.acct0, Some(t.b0), None));
+                v
+            })
+        };
+        let abs = |p: usize| p as u64 + shift;
+        for amt in [vault_b / 2, 1000] {
+            for new_auth_same in [true, false] {
+                let nk = w.next_kp();
+                let new_auth = if new_auth_same { ak } else { y_auth.pubkey() };
+                for end_on_new in [false, true] {
+                    let end_target = if end_on_new { nk.pubkey() } else { x };
+                    let ixs = vec![ix::start_flashloan(x, ak, abs(3)), borrow(w, amt), ix::transfer_account(g, x, nk.pubkey(), ak, p, new_auth, fw), ix::end_flashloan(end_target, ak, if end_on_new { w.risk_metas(t.acct0, Some(t.b0), None) } else { vec![] })];
+                    let mut sg: Vec<&Keypair> = signers.clone();
+                    sg.push(&nk);
+                    let o = w.probe(m, &ixs, &sg).await;
+                    shapes_run += 1;
+                    m.r.eval();
+                    m.r.count("C11.directed_shapes");
+                    m.r.count(if o.ok() { "C11.directed_migration_inside_bracket_accepted" } else { "C11.directed_migration_inside_bracket_rejected" });
+                    m.r.distinct(&("c11-directed", "migrate", amt == 1000, new_auth_same, end_on_new, o.ok()));
+                }
+            }
+            // end names the sibling; the bracket's account rides along as a trailing account
+            for trailing in [true, false] {
+                let mut rem = vec![];
+                if trailing {
+                    rem.push(AccountMeta::new(x, false));
+                }
+                let ixs = vec![ix::start_flashloan(x, ak, abs(2)), borrow(w, amt), ix::end_flashloan(sk, ak, rem)];
+                let o = w.probe(m, &ixs, &signers).await;
+                shapes_run += 1;
+                m.r.eval();
+                m.r.count("C11.directed_shapes");
+                m.r.count(if o.ok() { "C11.directed_end_on_sibling_accepted" } else { "C11.directed_end_on_sibling_rejected" });
+                m.r.distinct(&("c11-directed", "sibling-end", amt == 1000, trailing, false, o.ok()));
+            }
+        }
+    }
     m.r.add("C11.shapes_executed", shapes_run);
     m.r.add("C11.shapes_accepted", accepted);
     m.r.note(&format!("C11 alphabet: {:?}; exhaustive up to length {}, random up to {}", C11_SYMS, exhaustive_len, max_len));
